@@ -500,19 +500,28 @@ Definition okposb (lo hi x : Z) : bool := (x =? nopos) || ((lo <=? x) && (x <=? 
 Definition okcb (lo hi : Z) (c : Z * Z) : bool :=
   (lo <=? fst c) && (fst c <=? hi) && (lo <=? snd c) && (snd c <=? hi).
 
+Definition inrb (lo hi x : Z) : bool := (lo <=? x) && (x <=? hi).
+
+(* a node has a position and an end within the bounds; a list of nodes holds nodes only *)
+Definition nodeposb (lo hi : Z) (i : ninfo) : bool :=
+  negb (n_isnode i) || (inrb lo hi (n_pos i) && inrb lo hi (n_end i)).
+
 Fixpoint boundedb (lo hi : Z) (v : value) : bool :=
   match v with
-  | VRef _ i e => okposb lo hi (n_pos i) && okposb lo hi (n_end i)
+  | VRef _ i e => okposb lo hi (n_pos i) && okposb lo hi (n_end i) && nodeposb lo hi i
                   && forallb (forallb (okcb lo hi)) (n_cmts i) && boundedb lo hi e
   | VPos p => okposb lo hi p
-  | VSlice _ _ cs | VStruct _ cs =>
+  | VSlice _ en cs =>
+      (fix all (l : list value) : bool := match l with [] => true | c :: l' => boundedb lo hi c && all l' end) cs
+      && (negb en || forallb is_node cs)
+  | VStruct _ cs =>
       (fix all (l : list value) : bool := match l with [] => true | c :: l' => boundedb lo hi c && all l' end) cs
   | _ => true
   end.
 
 Fixpoint bounded_rootb (lo hi : Z) (v : value) : bool :=
   match v with
-  | VRef _ i e => okposb lo hi (n_pos i) && okposb lo hi (n_end i) && bounded_rootb lo hi e
+  | VRef _ i e => okposb lo hi (n_pos i) && okposb lo hi (n_end i) && nodeposb lo hi i && bounded_rootb lo hi e
   | _ => boundedb lo hi v
   end.
 
@@ -555,21 +564,15 @@ Fixpoint xedits (es : list edit) : list edit :=
 Definition list_okb (nend : Z) (r : region) (xs : list value) (es : list edit) : bool :=
   forallb node_okb xs && orderedb xs
   && forallb (fun xe => is_identity (snd xe) || bounded_rootb (vpos (fst xe)) (vend (fst xe)) (fst xe)) (combine xs es)
-  && (nopos <=? fst r) && match xs with x0 :: _ => fst r <=? vpos x0 | [] => true end
-  && ((nend =? nopos) || forallb (fun x => vpos x <=? nend) xs)
-  && forallb (fun xer => let '(x, e, rg) := xer in
-                         is_identity e || (snd rg =? nopos) || (Z.min (fst rg) (vpos x) <=? snd rg))
-             (combine (combine xs es) (elem_regions r None xs)).
+  && (nopos <? fst r) && match xs with x0 :: _ => fst r <=? vpos x0 | [] => true end
+  && ((nend =? nopos) || forallb (fun x => vpos x <=? nend) xs).
 
 (* the conjuncts of [list_okb] one by one (diagnostics of a check run: which side condition failed) *)
 Definition list_ok_parts (nend : Z) (r : region) (xs : list value) (es : list edit) : list bool :=
   [ forallb node_okb xs; orderedb xs;
     forallb (fun xe => is_identity (snd xe) || bounded_rootb (vpos (fst xe)) (vend (fst xe)) (fst xe)) (combine xs es);
-    (nopos <=? fst r); match xs with x0 :: _ => fst r <=? vpos x0 | [] => true end;
-    ((nend =? nopos) || forallb (fun x => vpos x <=? nend) xs);
-    forallb (fun xer => let '(x, e, rg) := xer in
-                        is_identity e || (snd rg =? nopos) || (Z.min (fst rg) (vpos x) <=? snd rg))
-            (combine (combine xs es) (elem_regions r None xs)) ].
+    (nopos <? fst r); match xs with x0 :: _ => fst r <=? vpos x0 | [] => true end;
+    ((nend =? nopos) || forallb (fun x => vpos x <=? nend) xs) ].
 
 Definition own_comments (x : value) : list (Z * Z) := concat (n_cmts (info x)).
 
